@@ -307,6 +307,9 @@ async def _rx_session(spec, sess):
             if cb.get("yield_every") and n % cb["yield_every"] == 0:
                 sess.ev(["cbsusp", idx])
                 await asyncio.sleep(0)
+            if cb.get("send_every") and n % cb["send_every"] == 0:
+                # an application that answers what it receives: a valid message sent from inside the receive callback
+                await client.send(load_msg({"basic": POOL_BASIC[1]}))
             if cb.get("raise_every") and n % cb["raise_every"] == 0:
                 raise _cb_exc(n)
         except BaseException as e:
